@@ -30,7 +30,7 @@ PROCS = 12
 
 def run_real(case):
   out = ec.run_test_case(case)
-  return {'tokens': out['tokens'] + ['X:ret:%d' % (1 if out['ret'] else 0), 'X:crash:%d' % len(out['crashes'])]}
+  return {'tokens': ec.core_tokens(out['tokens']) + ['X:ret:%d' % (1 if out['ret'] else 0), 'X:crash:%d' % len(out['crashes'])]}
 
 
 def encode(case, obs):
